@@ -3,6 +3,7 @@ mod backend;
 mod compat;
 mod catalog;
 mod contract;
+mod corrupt;
 mod crash;
 mod fault;
 mod history;
@@ -58,6 +59,7 @@ fn main() {
         "contract" => contract::run(&args),
         "catalog" => catalog::run(&args),
         "compat" => compat::run(&args),
+        "corrupt" => corrupt::run(&args),
         other => {
             eprintln!("unknown command {other}");
             std::process::exit(2);
